@@ -35,7 +35,10 @@ RULE = (
     "non-trivial = the location resolves (kernel) to an existing file or directory, i.e. there is something a "
     "non-failing read could deliver; distinct = distinct (route, base spelling, location, entry point) tuples. "
     "ir.load cases additionally judge the base directory of every external tensor of the loaded model "
-    "(9 positions) for one path spelling each. Stateful cases (16%) keep one tensor object alive: read via entry point A "
+    "(9 positions) for one path spelling each; in 30% of them the model FILE named by the path is itself a symbolic link "
+    "(direct or chained, relative or absolute text) into another / child / parent directory holding same-named decoy data "
+    "files - the model's directory is the directory holding the entry the caller named (kernel resolution of dirname(path "
+    "as given) or '.'), not the directory of the link's destination. Stateful cases (16%) keep one tensor object alive: read via entry point A "
     "-> the data file is swapped for a symlink / hard link / dir-symlink escape, gains a hard link, is replaced or "
     "restored, or base_dir is re-pointed, optionally followed by release()/invalidate() -> read via entry point B, "
     "judged against the truth recomputed at the time of the second read."
@@ -70,6 +73,7 @@ def plan(tier: str) -> dict:
                 "audit_inventory_mmap": 900,
                 "load_base_dir_ok": 5000,
                 "load_spelling:bare-filename": 100,
+                "load_base_dir_judged_for_model_file_symlinked_into_another_dir": 1500,
                 "stateful_cases": 800,
                 "stateful_refused_although_previously_mapped": 80,
             }
@@ -82,6 +86,7 @@ def plan(tier: str) -> dict:
                 "audit_inventory_mmap": 18000,
                 "load_base_dir_ok": 90000,
                 "load_spelling:bare-filename": 2000,
+                "load_base_dir_judged_for_model_file_symlinked_into_another_dir": 30000,
                 "stateful_cases": 20000,
                 "stateful_refused_although_previously_mapped": 2000,
                 "strace_cases_observed": 1000,
@@ -533,12 +538,24 @@ def report_stateful(ctx, sb: Sandbox, spec: dict, viols) -> None:
 # --------------------------------------------------------------------------------------------
 
 
+LINK_SHARE = 0.3
+_LOAD_SHRUNK: dict[str, str] = {}  # unshrunk base-dir signature -> signature of its shrunk witness (per shard)
+
+
 def gen_load_case(rng, sb: Sandbox) -> dict:
     target = rng.choice(L.BASE_TARGETS)
     fname = "m.onnx" if rng.random() < 0.85 else "m.textproto"
-    scls, cwd, sp, judged = rng.choice(L.load_spellings(target, fname))
+    # a third of the load cases reach the model FILE through a symbolic link that lives in the
+    # target directory and leads (directly or over a second link) to the real file elsewhere
+    link = L.gen_model_link(rng, target, fname) if rng.random() < LINK_SHARE else None
+    spellings = L.load_spellings(target, link["name"] if link else fname)
+    if link:  # the static ln_<fname> links do not exist for the per-case link name
+        spellings = [s for s in spellings if not s[0].startswith("symlinked-model-file")]
+    scls, cwd, sp, judged = rng.choice(spellings)
     spec = {"target": target, "fname": fname, "spelling": sp, "spelling_class": scls, "cwd": cwd,
-            "judged": judged, "pathlike": rng.random() < 0.2, "tensors": []}
+            "judged": judged, "pathlike": rng.random() < 0.2, "tensors": [], "link": link,
+            # the directory that holds the directory entry named by the caller
+            "model_dir": "outside" if scls == "symlinked-model-file-other-dir" else target}
     if rng.random() < 0.65:
         spec["mode"] = "tensors"
         for pos in L.POSITIONS:
@@ -561,7 +578,8 @@ def gen_load_case(rng, sb: Sandbox) -> dict:
     return spec
 
 
-def _write_model(sb: Sandbox, spec: dict) -> None:
+def _write_model(sb: Sandbox, spec: dict) -> tuple[str, list[str]]:
+    """-> (path of the real model file, paths to remove after the case)."""
     by_pos: dict[str, list] = {}
     for ts in spec["tensors"]:
         by_pos.setdefault(ts["position"], []).append(L.tensor_proto(ts["name"], sb.subst(ts["loc"]), ts))
@@ -569,21 +587,73 @@ def _write_model(sb: Sandbox, spec: dict) -> None:
         comp = onnx.helper.make_tensor("companion", onnx.TensorProto.UINT8, [24], bytes(range(24)), raw=True)
         by_pos.setdefault(spec["tensors"][0]["position"], []).insert(0, comp)
     proto = L.build_model_proto(by_pos)
-    onnx.save(proto, f"{sb.R}/{spec['target']}/{spec['fname']}")
+    fmt = "textproto" if spec["fname"].endswith(".textproto") else "protobuf"
+    link = spec.get("link")
+    if not link:
+        written = f"{sb.R}/{spec['target']}/{spec['fname']}"
+        onnx.save(proto, written, format=fmt)
+        return written, []
+    written = f"{sb.R}/{link['blob'][0]}/{link['blob'][1]}"
+    created = [written]
+    onnx.save(proto, written, format=fmt)
+    for (d, n), text in zip(link["chain"], link["texts"]):
+        p = f"{sb.R}/{d}/{n}"
+        if os.path.lexists(p):
+            os.unlink(p)
+        os.symlink(sb.subst(text), p)
+        created.append(p)
+    return written, created
+
+
+def _named_directory(path: str) -> os.stat_result:
+    """The model's directory for ``ir.load(path)``: the directory that holds the directory entry
+    the caller named - dirname of the path as given ('.' for a bare name), resolved by the kernel
+    (a "<symlinked-dir>/.." component goes up from the link's destination; the LAST component is
+    not followed).  Cross-checked with the textual formulation realpath(cwd/dirname)."""
+    d = os.path.dirname(path) or "."
+    fd = os.open(d, os.O_RDONLY | os.O_DIRECTORY)
+    try:
+        st = os.fstat(fd)
+        os.lstat(os.path.basename(path), dir_fd=fd)  # the named entry lives there
+    finally:
+        os.close(fd)
+    st2 = os.stat(os.path.realpath(os.path.join(os.getcwd(), d)))
+    if (st.st_dev, st.st_ino) != (st2.st_dev, st2.st_ino):
+        raise AssertionError(f"harness: kernel and realpath disagree on the directory of {path!r}")
+    return st
 
 
 def run_load_case(ctx, sb: Sandbox, spec: dict, count: bool = True) -> list:
     """-> list of (signature, message).  Judges the base-dir clause and every read."""
     c = ctx if count else _NullCtx()
-    _write_model(sb, spec)
+    written, created = _write_model(sb, spec)
+    try:
+        return _run_load_case(ctx, c, sb, spec, written, count)
+    finally:
+        for p in created:
+            try:
+                os.unlink(p)
+            except OSError:
+                pass
+
+
+def _run_load_case(ctx, c, sb: Sandbox, spec: dict, written: str, count: bool) -> list:
+    link = spec.get("link")
     os.chdir(f"{sb.R}/{spec['cwd']}" if spec["cwd"] else sb.R)
     sp = sb.subst(spec["spelling"])
     sp_o = pathlib.Path(sp) if spec["pathlike"] else sp
     scls = spec["spelling_class"]
     if spec["judged"] and "/" not in os.fspath(sp_o):
         scls = "bare-filename"  # e.g. pathlib turns "./m.onnx" into "m.onnx"
+    # how the last component of the path reaches the real model file
+    fcls = f"symlink:{link['class']}" if link else (
+        "symlink:other-dir" if scls == "symlinked-model-file-other-dir" else
+        "symlink:same-dir" if scls == "symlinked-model-file" else "regular")
+    if len((link or {}).get("chain", ())) > 1:
+        fcls += "-chained"
     c.count("load_cases")
     c.count(f"load_spelling:{scls}")
+    c.count(f"load_model_file:{fcls}")
     AUDIT.events = []
     try:
         model = L.lib(lambda: ir.load(sp_o))
@@ -598,13 +668,18 @@ def run_load_case(ctx, sb: Sandbox, spec: dict, count: bool = True) -> list:
     expected = {ts["name"] for ts in spec["tensors"]}
     if set(tensors) != expected:
         raise AssertionError(f"harness: loaded external tensors {sorted(tensors)} != written {sorted(expected)}")
-    model_dir = f"{sb.R}/{spec['target']}"
+    model_rel = spec.get("model_dir") or spec["target"]
+    model_dir = f"{sb.R}/{model_rel}"
     dst = os.stat(model_dir)
     if spec["judged"]:
-        # the model's directory = directory of the file the OS actually opened
-        opened_dir = os.stat(os.path.dirname(os.path.realpath(os.fspath(sp_o))))
-        if (opened_dir.st_dev, opened_dir.st_ino) != (dst.st_dev, dst.st_ino):
-            raise AssertionError(f"harness: spelling {sp!r} does not denote the model written to {model_dir}")
+        # the model's directory = the directory holding the entry the caller named (NOT the
+        # directory of whatever file a symlinked last component leads to)
+        named = _named_directory(os.fspath(sp_o))
+        if (named.st_dev, named.st_ino) != (dst.st_dev, dst.st_ino):
+            raise AssertionError(f"harness: spelling {sp!r} does not name an entry of {model_dir}")
+        fst, wst = os.stat(os.fspath(sp_o)), os.stat(written)
+        if (fst.st_dev, fst.st_ino) != (wst.st_dev, wst.st_ino):
+            raise AssertionError(f"harness: spelling {sp!r} does not reach the model written to {written}")
     bad: dict[str, str] = {}  # tensor name -> "empty" | "wrong"
     for ts in spec["tensors"]:
         t = tensors[ts["name"]]
@@ -622,6 +697,8 @@ def run_load_case(ctx, sb: Sandbox, spec: dict, count: bool = True) -> list:
         if spec["judged"]:
             c.count("load_tensors_checked")
             c.count(f"load_base_dir_{status}")
+            if fcls not in ("regular", "symlink:same-dir", "symlink:same-dir-via-dirlink"):
+                c.count("load_base_dir_judged_for_model_file_symlinked_into_another_dir")
             if status != "ok":
                 bad[ts["name"]] = status
                 c.count(f"load_base_dir_{status}:position={ts['position']}")
@@ -672,30 +749,66 @@ def run_load_case(ctx, sb: Sandbox, spec: dict, count: bool = True) -> list:
             ctx.evaluation(key=["load", spec["spelling"], spec["cwd"], ts["loc"], rspec["entry"]],
                            nontrivial=truth.exists)
         for kind, sig, text in viols:
-            out.append((sig, f"{text}. Witness: model $R/{spec['target']}/{spec['fname']} loaded with "
+            out.append((sig, f"{text}. Witness: model {sb.unsubst(written)} loaded with "
                              f"ir.load({spec['spelling']!r}) from cwd=$R/{spec['cwd']}; "
                              f"{describe(sb, rspec, truth, outcome)}"))
     # ---- base-dir clause ---------------------------------------------------------------------
     if bad:
         wit = ("; consequence: " + " | ".join(witnesses[:3])) if witnesses else ""
         how = f"ir.load({'Path(' if spec['pathlike'] else ''}{spec['spelling']!r}{')' if spec['pathlike'] else ''}) with cwd=$R/{spec['cwd']}"
+        if link:
+            how += (" where " + ", ".join(f"$R/{d}/{n} -> {t!r}" for (d, n), t in zip(link["chain"], link["texts"]))
+                    + f" (symbolic links; the real model file is $R/{link['blob'][0]}/{link['blob'][1]})")
+        elif fcls != "regular":
+            how += f" where the named file is a symbolic link to $R/{spec['target']}/{spec['fname']}"
+        mf = "" if fcls in ("regular", "symlink:same-dir") else f"|model-file={fcls}"
         if len(bad) == len(spec["tensors"]) and len(set(bad.values())) == 1:
             status = next(iter(bad.values()))
             out.append((
-                f"load-base-dir:{status}|spelling={scls}",
+                f"load-base-dir:{status}|spelling={scls}{mf}",
                 f"{how}: every external tensor of the model got base_dir "
                 f"{os.fspath(tensors[spec['tensors'][0]['name']].base_dir)!r} ({status}) instead of the model's "
-                f"directory $R/{spec['target']}, so containment is "
+                f"directory $R/{model_rel}, so containment is "
                 f"{'disabled' if status == 'empty' else 'anchored at the wrong directory'}{wit}"))
         else:
             for ts in spec["tensors"]:
                 if ts["name"] in bad:
                     out.append((
-                        f"load-base-dir:{bad[ts['name']]}|position={ts['position']}",
+                        f"load-base-dir:{bad[ts['name']]}|position={ts['position']}{mf}",
                         f"{how}: external tensor {ts['name']!r} at position {ts['position']} got base_dir "
                         f"{os.fspath(tensors[ts['name']].base_dir)!r} ({bad[ts['name']]}) while the model's directory is "
-                        f"$R/{spec['target']}{wit}"))
+                        f"$R/{model_rel}{wit}"))
     return out
+
+
+def shrink_load(ctx, sb: Sandbox, spec: dict, sig: str) -> dict:
+    """Greedy simplification of a load case that violates the base-dir clause: plain absolute
+    spelling, str instead of PathLike, a single direct relative link - kept only while a
+    base-dir violation of the same status remains."""
+    status = sig.split("|")[0]
+
+    def still(sp: dict) -> bool:
+        try:
+            return any(s2.split("|")[0] == status for s2, _ in run_load_case(ctx, sb, sp, count=False))
+        except (AssertionError, OSError, ValueError):
+            return False
+
+    cur = dict(spec)
+    link = spec.get("link")
+    name = link["name"] if link else spec["fname"]
+    cands = [{"pathlike": False}]
+    if spec["spelling_class"] != "symlinked-model-file-other-dir":
+        cands.append({"spelling": f"$R/{spec['target']}/{name}", "cwd": "outside", "spelling_class": "abs"})
+    if link and len(link["chain"]) > 1:
+        cands.append({"link": dict(link, chain=link["chain"][:1],
+                                   texts=[os.path.relpath("/".join(link["blob"]), spec["target"])])})
+    for change in cands:
+        if all(cur.get(k) == v for k, v in change.items()):
+            continue
+        cand = dict(cur, **change)
+        if still(cand):
+            cur = cand
+    return cur
 
 
 # --------------------------------------------------------------------------------------------
@@ -903,8 +1016,18 @@ def run(ctx) -> None:
                 if n_cases % 40 == 7:
                     ctx.sample({"kind": "load", "spelling": spec["spelling"], "cwd": spec["cwd"], "mode": spec["mode"],
                                 "locations": [t["loc"] for t in spec["tensors"]][:4]})
+                first = next((sig for sig, _ in viols if sig.startswith("load-base-dir:")), None)
+                if first is not None and first not in _LOAD_SHRUNK:
+                    # shrink once per (status, spelling class, model-file class); later instances
+                    # of the same unshrunk signature are booked under the shrunk one
+                    small = shrink_load(ctx, sb, spec, first)
+                    v2 = run_load_case(ctx, sb, small, count=False) if small != spec else viols
+                    _LOAD_SHRUNK[first] = next((s2 for s2, _ in v2 if s2.startswith("load-base-dir:")), first)
+                    if small != spec and v2:
+                        spec, viols = small, v2
                 seen = set()
                 for sig, msg in viols:
+                    sig = _LOAD_SHRUNK.get(sig, sig) if sig == first else sig
                     if sig not in seen:
                         seen.add(sig)
                         ctx.violation(sig, msg, {"kind": "load", "spec": spec})
